@@ -212,6 +212,9 @@ func (fv *FV) yieldLitArg(c *ast.CallExpr) (callee *types.Func, yi int, lit *ast
 
 // execRangeFuncMethod: for x := range recv.M { body } with M's parameter in role yield.
 func (fv *FV) execRangeFuncMethod(st *State, x *ast.RangeStmt, label string, ord int, keyObj types.Object) *State {
+	if ce, ok := ast.Unparen(x.X).(*ast.CallExpr); ok {
+		return fv.execRangeSeqCall(st, x, ce, label, ord, keyObj)
+	}
 	se, ok := ast.Unparen(x.X).(*ast.SelectorExpr)
 	if !ok {
 		fv.fail(x.Pos(), "range over a function value that is not a method value")
@@ -242,15 +245,68 @@ func (fv *FV) execRangeFuncMethod(st *State, x *ast.RangeStmt, label string, ord
 	}
 	argT := ysig.Params().At(0).Type()
 	recv := fv.evalExpr(st, se.X)
+	call := &ast.CallExpr{Fun: se, Lparen: x.Pos(), Rparen: x.Pos(), Args: []ast.Expr{&ast.Ident{Name: "_govc_yield_", NamePos: x.Pos()}}}
+	return fv.rangeOverCall(st, x, callee, &recv, se.X, call, argT, callee.Type().(*types.Signature).Params().At(0).Type(), label, ord, keyObj)
+}
+
+// execRangeSeqCall: for x := range f(args) { body } where f's contract says `seq yield` (f only returns a range function).
+func (fv *FV) execRangeSeqCall(st *State, x *ast.RangeStmt, ce *ast.CallExpr, label string, ord int, keyObj types.Object) *State {
+	var callee *types.Func
+	var recv *Term
+	var recvExpr ast.Expr
+	switch f := ast.Unparen(ce.Fun).(type) {
+	case *ast.Ident:
+		callee, _ = fv.info.ObjectOf(f).(*types.Func)
+	case *ast.IndexExpr:
+		if id, ok := f.X.(*ast.Ident); ok {
+			callee, _ = fv.info.ObjectOf(id).(*types.Func)
+		}
+	case *ast.SelectorExpr:
+		if sel := fv.info.Selections[f]; sel != nil {
+			if sel.Kind() == types.MethodVal {
+				callee, _ = sel.Obj().(*types.Func)
+				r := fv.evalExpr(st, f.X)
+				recv, recvExpr = &r, f.X
+			}
+		} else {
+			callee, _ = fv.info.ObjectOf(f.Sel).(*types.Func)
+		}
+	}
+	if callee == nil {
+		fv.fail(x.Pos(), "range over the result of a call that is not a static call")
+	}
+	fc, _, _ := fv.calleeContract(callee)
+	if fc == nil || fc.Seq == "" {
+		fv.fail(x.Pos(), "range over %s(…): the function needs a contract with `seq NAME`", callee.Name())
+	}
+	if !onlyTrace(fc) {
+		fv.fail(x.Pos(), "range over %s(…): the range function modifies more than the trace of its callback", callee.Name())
+	}
+	seqSig, ok := fv.typeOf(ce).Underlying().(*types.Signature)
+	if !ok || seqSig.Params().Len() != 1 {
+		fv.fail(x.Pos(), "range over %s(…): the result is not a single-value range function", callee.Name())
+	}
+	cbT := seqSig.Params().At(0).Type()
+	ysig, ok := cbT.Underlying().(*types.Signature)
+	if !ok || ysig.Params().Len() != 1 {
+		fv.fail(x.Pos(), "range over %s(…): unsupported yield signature", callee.Name())
+	}
+	args := append(append([]ast.Expr{}, ce.Args...), &ast.Ident{Name: "_govc_yield_", NamePos: x.Pos()})
+	call := &ast.CallExpr{Fun: ce.Fun, Lparen: ce.Lparen, Rparen: ce.Rparen, Args: args}
+	return fv.rangeOverCall(st, x, callee, recv, recvExpr, call, ysig.Params().At(0).Type(), cbT, label, ord, keyObj)
+}
+
+// rangeOverCall: the callee is called by contract on a trace of its own with an opaque callback, then the body of
+// the range statement is verified as a loop over that trace.
+func (fv *FV) rangeOverCall(st *State, x *ast.RangeStmt, callee *types.Func, recv *Term, recvExpr ast.Expr, call *ast.CallExpr, argT, cbT types.Type, label string, ord int, keyObj types.Object) *State {
 	restore := fv.beginCalleeTrace(st, argT)
-	// a synthetic call recv.M(<callback>) whose callback argument is an opaque function value
-	cb := Term{S: fv.fresh("yieldcb", sInt), Sort: sInt, T: callee.Type().(*types.Signature).Params().At(0).Type()}
+	// a synthetic call whose callback argument is an opaque function value
+	cb := Term{S: fv.fresh("yieldcb", sInt), Sort: sInt, T: cbT}
 	fv.assume(st, app(">", cb.S, "0"))
 	fv.rangeCallback = &cb
-	call := &ast.CallExpr{Fun: se, Lparen: x.Pos(), Rparen: x.Pos(), Args: []ast.Expr{&ast.Ident{Name: "_govc_yield_", NamePos: x.Pos()}}}
 	fv.info.Types[call] = types.TypeAndValue{Type: types.NewTuple()}
 	fv.inYieldCall++
-	fv.callStatic(st, callee, &recv, se.X, call)
+	fv.callStatic(st, callee, recv, recvExpr, call)
 	fv.inYieldCall--
 	fv.rangeCallback = nil
 	tr := restore()
